@@ -1,15 +1,20 @@
 #!/bin/bash
 # usage: tools/mutant.sh <patch.diff> <tier> <prop> [prop...]
-# applies a seeded change to /repo, runs the given checks, and undoes it again.
+# Applies a seeded change to a scratch worktree of /repo's HEAD (/tmp/vmut), runs the given
+# checks against it through VERIF_REPO, and removes the patch again.  (While no other job uses
+# /repo the same can be done in place: git -C /repo apply <patch>; ./check ...; git -C /repo checkout -- .)
 set -u
-patch="$1"; tier="$2"; shift 2
-cd /repo || exit 2
-if ! git diff --quiet; then echo "/repo has uncommitted changes"; exit 2; fi
-git apply "$patch" || { echo "patch does not apply"; exit 2; }
-trap 'git -C /repo checkout -- . ' EXIT
+patch="$(realpath "$1")"; tier="$2"; shift 2
+if [ ! -d /tmp/vmut ]; then git -C /repo worktree add --detach /tmp/vmut HEAD >/dev/null 2>&1 || exit 2; fi
+cd /tmp/vmut && git checkout -q --detach "$(git -C /repo rev-parse HEAD)" && git checkout -q -- . || exit 2
+if ! git apply "$patch" 2>/dev/null; then
+  if ! git apply --3way "$patch" >/dev/null 2>&1; then echo "PATCH-DOES-NOT-APPLY $patch"; git reset -q --hard; exit 2; fi
+  git reset -q
+fi
 cd /verif
 for p in "$@"; do
-  echo "=== $p ($tier) with $(basename $(dirname $patch))/$(basename $patch)"
-  ./check "$p" "$tier" 2>/dev/null | grep -E "VIOLATION|HELD|INCONCLUSIVE|KNOWN|^  \[" | cut -c1-400
-  echo "exit=${PIPESTATUS[0]}"
+  out=$(VERIF_REPO=/tmp/vmut ./check "$p" "$tier" 2>/dev/null); rc=$?
+  echo "=== $p ($tier) $(basename $(dirname $patch)) exit=$rc"
+  echo "$out" | grep -E "VIOLATION|HELD|INCONCLUSIVE|^  \[" | cut -c1-260 | head -8
 done
+cd /tmp/vmut && git checkout -q -- .
